@@ -630,9 +630,12 @@ fn check_case(c: &Case, state: Option<&EncryptionState>, formats: &[bool]) -> Fa
     }
     if enc.objects.len() != orig.objects.len() + 1 { push(&mut f, "non-string-unchanged", format!("encrypt changed the number of objects from {} to {}", orig.objects.len(), enc.objects.len())); }
     // 4. in memory: user password, owner password, wrong passwords
+    // Revisions 2-4 (Algorithm 3): "if there is no owner password, use the user password instead" - an empty owner
+    // password is no owner password, so the password that opens the document as owner is the user password.
+    let owner_eff: &str = if h.legacy() && c.owner.is_empty() { c.user } else { c.owner };
     expect_decrypts(h, &orig, &enc, enc_id, c.user, true, "mem-user", &mut f);
-    expect_decrypts(h, &orig, &enc, enc_id, c.owner, true, "mem-owner", &mut f);
-    expect_rejects(h, &enc, c.user, c.owner, "mem", &mut f);
+    expect_decrypts(h, &orig, &enc, enc_id, owner_eff, true, "mem-owner", &mut f);
+    expect_rejects(h, &enc, c.user, owner_eff, "mem", &mut f);
     // 5. through save + load
     if c.doc.reload {
         for &xs in formats {
@@ -648,25 +651,25 @@ fn check_case(c: &Case, state: Option<&EncryptionState>, formats: &[bool]) -> Fa
             let loaded = match catch(|| Document::load_mem(&bytes)) {
                 Err(p) => { push(&mut f, "no-panic", format!("load of the encrypted file panicked: {}", p)); continue; }
                 Ok(Err(e)) => {
-                    let auto = c.user.is_empty() || c.owner.is_empty();
+                    let auto = c.user.is_empty() || owner_eff.is_empty();
                     push(&mut f, if auto { "reload-auto-restores" } else { "reload-load-ok" }, format!("load of the saved encrypted file failed (xref stream={}): {}", xs, e));
                     continue;
                 }
                 Ok(Ok(d)) => d,
             };
-            let expect_auto = c.user.is_empty() || c.owner.is_empty();
+            let expect_auto = c.user.is_empty() || owner_eff.is_empty();
             let is_enc = loaded.trailer.get(b"Encrypt").is_ok();
             if expect_auto {
                 if is_enc { push(&mut f, "reload-auto-decrypt", "the empty password is the user or owner password but the loader left the document encrypted".into()); }
                 else { check_restored(&orig, &loaded, enc_id, false, "reload-auto", &mut f); }
             } else if !is_enc {
-                let nl = h.legacy() && (strip_nonlatin(c.user).is_empty() || strip_nonlatin(c.owner).is_empty());
+                let nl = h.legacy() && (strip_nonlatin(c.user).is_empty() || strip_nonlatin(owner_eff).is_empty());
                 push(&mut f, if nl { "reload-stays-encrypted-nonlatin" } else { "reload-stays-encrypted" },
-                     format!("neither password is empty (user {:?}, owner {:?}) but the loader decrypted the file without a password", short(c.user), short(c.owner)));
+                     format!("neither password is empty (user {:?}, owner {:?}) but the loader decrypted the file without a password", short(c.user), short(owner_eff)));
             } else {
                 expect_decrypts(h, &orig, &loaded, enc_id, c.user, false, "reload-user", &mut f);
-                expect_decrypts(h, &orig, &loaded, enc_id, c.owner, false, "reload-owner", &mut f);
-                expect_rejects(h, &loaded, c.user, c.owner, tag, &mut f);
+                expect_decrypts(h, &orig, &loaded, enc_id, owner_eff, false, "reload-owner", &mut f);
+                expect_rejects(h, &loaded, c.user, owner_eff, tag, &mut f);
             }
         }
     }
